@@ -8,6 +8,7 @@
 //   mfnd                           make_filtration_non_decreasing()
 //   chk d                          no operation, dump only
 //   ripsp d thr | x,y,.. x,y,..    fresh tree; Rips_complex<Fv>(integer points, thr, squared Euclidean distance).create_complex(st, d)
+//                                  (when #points + |d| is odd: Gudhi::compute_proximity_graph + insert_graph + expansion instead)
 //   ripsm d thr | r1 ; r2 ; ...    fresh tree; Rips_complex<Fv>(lower triangular matrix, thr).create_complex(st, d)
 // stdout: one line per input line:  "<ret> dim=<dimension()> ub=<upper_bound_dimension()> nv=<num_vertices()> n=<num_simplices()> S=<v,v:val;...>
 //   [A=<v,v;...> added_simplices, sorted, with multiplicity] [B=<v,v:val;...> simplices submitted to the blocker, sorted]"
@@ -260,8 +261,16 @@ int main() {
             for (size_t i = 0; i < a.size(); i++) s += (a[i] - b[i]) * (a[i] - b[i]);
             return (Fv)s;
           };
-          Gudhi::rips_complex::Rips_complex<Fv> rc(pts, (Fv)thr, sq);
-          rc.create_complex(*st, d);
+          if ((pts.size() + (size_t)(d < 0 ? -d : d)) % 2 == 1) {
+            // the same construction through the generic route of graph_simplicial_complex.h (as Cech_complex and the examples do):
+            // compute_proximity_graph + insert_graph + expansion; which route a case takes is a function of the case
+            auto g = Gudhi::compute_proximity_graph<ST>(pts, (Fv)thr, sq);
+            st->insert_graph(g);
+            st->expansion(d);
+          } else {
+            Gudhi::rips_complex::Rips_complex<Fv> rc(pts, (Fv)thr, sq);
+            rc.create_complex(*st, d);
+          }
         } else {
           std::vector<std::vector<Fv>> m(1);
           while (in >> tok) {
